@@ -163,9 +163,9 @@ PROPS = {
     "C15": dict(
         modules=["GraphSlam.Props.C15"],
         theorem_files=["GraphSlam/Props/Tie/GraphPy.lean", "GraphSlam/Props/C15/*.lean"],
-        scan_files=["GraphSlam/Generated/GraphPy.lean", "GraphSlam/Model/Heap.lean", "GraphSlam/Model/Run.lean", "GraphSlam/Model/GraphIter.lean", "GraphSlam/Core/*.lean", "GraphSlam/Model/NumJac.lean", "GraphSlam/Model/Assembly.lean", "GraphSlam/Props/C16/*.lean", "GraphSlam/Props/C06/*.lean"],
+        scan_files=["GraphSlam/Generated/GraphPy.lean", "GraphSlam/Model/Heap.lean", "GraphSlam/Model/HeapObs.lean", "GraphSlam/Model/HeapNumOpt.lean", "Driver/Heap.lean", "GraphSlam/Model/Run.lean", "GraphSlam/Model/GraphIter.lean", "GraphSlam/Core/*.lean", "GraphSlam/Model/NumJac.lean", "GraphSlam/Model/Assembly.lean", "GraphSlam/Props/C16/*.lean", "GraphSlam/Props/C06/*.lean"],
         graph_tie=True,
-        corr=[("harness.entry", "purity", dict()), ("harness.entry", "numjac", dict(quick=25, thorough=800))],
+        corr=[("harness.entry", "purity", dict()), ("harness.entry", "heap", dict()), ("harness.entry", "numjac", dict(quick=25, thorough=800))],
         search=("search.entry", "c15"),
         always_search=True,
         replay=("search.entry", "replay_generic"),
@@ -174,7 +174,7 @@ PROPS = {
         "in place to expose aliasing; non-trivial = one operation",
         assumptions=["SE(2) angles in range (every pose the library produces is: C11)"],
         proved_level="partial",
-        unproved=["the object-identity model (Model/Heap.lean) is itself a hand model of numpy / Python object semantics (which operations allocate, which re-bind, which write in place): its frame theorems hold for all histories, its agreement with the interpreter is observed by the trace harness, not proved",
+        unproved=["the object-identity model (Model/Heap.lean) is itself a hand model of numpy / Python object semantics (which operations allocate, which re-bind, which write in place): its frame theorems hold for all histories, its agreement with the interpreter is checked by running the model (driver command `heap`) and the real objects on the same aliased worlds and histories (tools/harness/heap.py: identity pattern, changed-or-not, flags exact), not proved",
                   "queries other than the built-in calc_error, and custom edges' calc_error, are assumed to read only and to allocate their results (the dictionary / dense-array writes of the assembly go into arrays created by the same call)"],
         technique="Lean 4 proof: frame conditions of hand models (perturb/restore loop of _calc_jacobian, update loop) for all histories; numpy aliasing observed by a bitwise trace check",
         level_text="Proved on an explicit OBJECT-IDENTITY model (Model/Heap.lean: a growing heap of arrays, vertices and edges hold object ids, any aliasing allowed; Props/C15/Heap*.lean) for ALL histories of operations: (1) append-only - every operation except normalize() (the one in-place operation of the library) and the caller's own writes leaves every pre-existing object bit-identical, no call re-binds an edge attribute or changes an id / gradient index, fixed flags change only in optimize, to applyFixFirst; (2) queries leave the world unchanged except heap growth and are deterministic; the numerical-differentiation loop re-binds only the differentiated vertex, to a new object with the same content; (3) optimize: a fixed vertex keeps the same object, every free vertex gets its own NEW object holding old [+] dx-slice, pairwise distinct - two vertices (or a vertex and a measurement) that shared one object are not double-updated and the shared object keeps its entries; (4) copies are independent; (5) refinement: reading the world through its references gives exactly Model.numJacobian / Model.applyDx / Model.Run.iterStates. Also (value level): the numerical-differentiation loop returns the store exactly as it found it for every pose type (copy p = p discharged for the generated copy of R2/R3/SE3, and SE2 in range), for any error function and any number of vertices; "
